@@ -1,4 +1,5 @@
 import GstProofs.Calc.Rollback
+import GstGen.CalcTable
 import GstProofs.Db.Ops
 /-!
 # C19 — A calculation either completes or leaves its data bases untouched
@@ -47,6 +48,30 @@ theorem finish_removes_temporaries (c : CState) (U : List Nat) (Nm : List String
 theorem rollback_inv (c : CState) (h : Inv c.db) : Inv (rollback c) := by
   unfold rollback deleteAll
   exact foldl_deleteNat_inv _ _ (foldl_deleteNat_inv _ _ h)
+
+/-! ### the premises of `rollback_restores`, decided on the table of calculators regenerated from the source
+
+`runner/calc2lean.py` re-reads every calculator of /repo (classes defining `_rollback`) at each run and
+rewrites `GstGen/CalcTable.lean`.  The roll-back theorem assumes that the roll-back deletes the
+variables of *both* lists and that every variable created by the calculator is registered in one of
+them: these theorems say that the source does, for every calculator (not only those a harness calls). -/
+
+/-- every calculator's `_rollback` cleans the variables it added to the input and to the output
+data base, permanent and temporary alike (finding F24 was the negation for the temporary ones) -/
+theorem calculators_clean_both_lists :
+    ∀ c ∈ GstGen.calculators, c.cleansIn = true ∧ c.cleansOut = true := by decide
+
+/-- no calculator creates a column behind the back of the roll-back lists.  Finding F97 was
+`CalcAnamTransform::_preprocess`, which called `Db::addColumnsByConstant` directly (repaired); the two
+calls that remain in that class are the work columns of `_uniformConditioning`, deleted before it
+returns -/
+theorem calculators_register_their_variables :
+    ∀ c ∈ GstGen.calculators, c.directAdds = 0 ∨ (c.cls = "CalcAnamTransform" ∧ c.directAdds ≤ 2) := by decide
+
+/-- the table is about the calculators the harness exercises (and more) -/
+theorem calculators_table_covers :
+    ∀ n ∈ ["CalcKriging", "CalcSimuTurningBands", "CalcSimuFFT", "CalcMigrate", "CalcStatistics", "CalcAnamTransform",
+           "CalcSimpleInterpolation", "CalcGridToGrid", "CalcSimuPost"], n ∈ GstGen.calculators.map (·.cls) := by decide
 
 /-! ### concrete instance: one permanent and one temporary variable, failure afterwards -/
 def db0 : State := { grid := false, nech := 2, nextUid := 2, uids := [0, 1], names := ["x", "z"],
